@@ -1156,6 +1156,10 @@ func (c *Conn) writeRequest(ctx *Ctx) error {
 			atomic.AddInt32(&c.openStreams, -1)
 		}
 
+		// deletePending takes the Ctx to close a streamed body, and the lock
+		// is not reentrant.
+		release()
+
 		c.deletePending(id)
 
 		return err
